@@ -344,4 +344,399 @@ Section AuxProof.
                apply auxv_In in Hin. apply Hin.
     Qed.
   End OneIfN.
+
+  (* ---------- one if-statement ---------- *)
+  Definition names_okA (A : list var) (k : nat) (l : list gassign) : Prop :=
+    forall y, In y (gvars l) -> In y A \/ exists j, (j < k)%nat /\ y = old_name j.
+  Lemma names_okA_mono A A' k k' l : (forall y, In y A -> In y A') -> (k <= k')%nat -> names_okA A k l -> names_okA A' k' l.
+  Proof.
+    intros HA Hk H y Hy. destruct (H y Hy) as [H1|[j [Hj H1]]]; [left; apply HA; exact H1 | right; exists j; split; [lia | exact H1]].
+  Qed.
+
+  Lemma emit_n_defaults mx CS Rf : forall brs NP R k,
+    (forall cl, In cl brs -> defaults_ok (snd cl)) -> defaults_ok (emit_n mx CS Rf NP brs R k).
+  Proof.
+    induction brs as [|cl brs IH]; intros NP R k H g Hg; cbn [emit_n] in Hg; [destruct Hg|].
+    destruct (extend CS (snd cl) R k) as [R' k']. apply in_app_or in Hg. destruct Hg as [Hg|Hg].
+    - apply in_map_iff in Hg. destruct Hg as [g0 [<- Hg0]]. unfold strengthen_n.
+      destruct (is_aux (ga_var g0)); [|cbn [strengthen ga_default ga_var]]; apply (H cl (or_introl eq_refl)); exact Hg0.
+    - eapply IH; [|exact Hg]. intros cl' Hin. apply H. right; exact Hin.
+  Qed.
+  Lemma emit_n_aux_mass mx CS Rf : forall brs NP R k,
+    (forall cl, In cl brs -> aux_mass (snd cl)) -> aux_mass (emit_n mx CS Rf NP brs R k).
+  Proof.
+    induction brs as [|cl brs IH]; intros NP R k H g Hg; cbn [emit_n] in Hg; [destruct Hg|].
+    destruct (extend CS (snd cl) R k) as [R' k']. apply in_app_or in Hg. destruct Hg as [Hg|Hg].
+    - apply in_map_iff in Hg. destruct Hg as [g0 [<- Hg0]]. unfold strengthen_n.
+      destruct (is_aux (ga_var g0)) eqn:Ea.
+      + apply (H cl (or_introl eq_refl)). exact Hg0.
+      + cbn [strengthen ga_var ga_rhs]. intros Hx. congruence.
+    - eapply IH; [|exact Hg]. intros cl' Hin. apply H. right; exact Hin.
+  Qed.
+
+  Lemma flatten_if_n_sim mx (items : list item) k out kf (Lv Lv0 A : list var) :
+    flatten_if_n mx (map fst items) k = (out, kf) ->
+    (forall x, In x Lv0 -> In x Lv) ->
+    (forall x, In x Lv -> is_gen x = false) ->
+    (forall y, In y A -> is_gen y = false /\ ~ In y Lv0) ->
+    (forall it, In it items -> wf_vars (cvars (fst (fst it))) = true
+        /\ (forall x, In x (cvars (fst (fst it))) -> is_aux x = false \/ In x Lv)
+        /\ defaults_ok (snd (fst it)) /\ aux_mass (snd (fst it))
+        /\ simL Lv0 Lv0 (snd (fst it)) (snd it) /\ names_okA A k (snd (fst it))) ->
+    (mx = true -> forall s, excl s (map (fun it : item => fst (fst it)) items)) ->
+    (k <= kf)%nat /\ defaults_ok out /\ aux_mass out /\ names_okA A kf out /\ simL Lv Lv0 out (sem_items items).
+  Proof.
+    unfold flatten_if_n. set (brs := map fst items). set (CS := flat_map (fun cl : fbranch => cvars (fst cl)) brs).
+    destruct (final_R CS brs [] k) as [Rf kf'] eqn:Efin. intros Heq HLsub HLgen HA Hit Hmx.
+    change (flat_map (fun cl : cond * list gassign => cvars (fst cl)) brs) with CS in Heq. rewrite Efin in Heq.
+    injection Heq as Ho Hkf. subst out kf'.
+    assert (Hinv : Rinv CS k Rf kf).
+    { eapply final_inv; [|exact Efin]. unfold Rinv. cbn. split; [reflexivity|]. split; [lia | intros x []]. }
+    destruct Hinv as [Ht [Hk Hkeys]].
+    assert (Hcs : forall x, In x CS -> is_gen x = false).
+    { intros x Hx. unfold CS in Hx. apply in_flat_map in Hx. destruct Hx as [cl [Hcl Hx]].
+      unfold brs in Hcl. apply in_map_iff in Hcl. destruct Hcl as [it [<- Hin]].
+      destruct (Hit it Hin) as [Hw _]. eapply wf_vars_In; eauto. }
+    assert (Hcsr : forall x, In x CS -> is_aux x = false \/ In x Lv).
+    { intros x Hx. unfold CS in Hx. apply in_flat_map in Hx. destruct Hx as [cl [Hcl Hx]].
+      unfold brs in Hcl. apply in_map_iff in Hcl. destruct Hcl as [it [<- Hin]].
+      destruct (Hit it Hin) as [_ [Hr _]]. apply Hr. exact Hx. }
+    assert (Htg : forall o, In o (map snd Rf) -> exists j, (k <= j < kf)%nat /\ o = old_name j).
+    { intros o Ho. rewrite Ht in Ho. apply in_map_iff in Ho. destruct Ho as [j [<- Hj]]. apply in_seq in Hj.
+      exists j. split; [lia | reflexivity]. }
+    assert (Hnd : NoDup (map snd Rf)).
+    { rewrite Ht. apply FinFun.Injective_map_NoDup; [intros a b; apply old_name_inj | apply seq_NoDup]. }
+    assert (Hng : forall x, is_gen x = false -> ~ In x (map snd Rf)).
+    { intros x Hx Hin. destruct (Htg x Hin) as [j [_ ->]]. rewrite is_gen_old in Hx. discriminate. }
+    assert (Hcin : forall it, In it items -> incl (cvars (fst (fst it))) CS).
+    { intros it Hin x Hx. unfold CS. apply in_flat_map. exists (fst it). split; [apply in_map; exact Hin | exact Hx]. }
+    assert (HLv0gen : forall x, In x Lv0 -> is_gen x = false) by (intros x Hx; apply HLgen, HLsub, Hx).
+    assert (Hgv : forall it y, In it items -> In y (gvars (snd (fst it))) ->
+              (is_gen y = false /\ ~ In y Lv0) \/ exists j, (j < k)%nat /\ y = old_name j).
+    { intros it y Hin Hy. destruct (Hit it Hin) as [_ [_ [_ [_ [_ Hn]]]]]. destruct (Hn y Hy) as [H1|H1]; [left; apply HA; exact H1 | right; exact H1]. }
+    split; [lia|]. split; [|split; [|split]].
+    - intros g Hg. apply in_app_or in Hg. destruct Hg as [Hg|Hg].
+      + apply in_map_iff in Hg. destruct Hg as [xo [<- _]]. reflexivity.
+      + eapply emit_n_defaults; [|exact Hg]. intros cl Hcl. apply in_map_iff in Hcl. destruct Hcl as [it [<- Hin]].
+        apply (Hit it Hin).
+    - intros g Hg. apply in_app_or in Hg. destruct Hg as [Hg|Hg].
+      + apply in_map_iff in Hg. destruct Hg as [xo [<- _]]. intros _ t c. cbn [copy_ga ga_rhs].
+        apply (E_sample_det law (fst xo) t (fun _ => c)).
+      + eapply emit_n_aux_mass; [|exact Hg]. intros cl Hcl. apply in_map_iff in Hcl. destruct Hcl as [it [<- Hin]].
+        apply (Hit it Hin).
+    - intros y Hy. rewrite gvars_app, gvars_emit_n in Hy. apply in_app_or in Hy. destruct Hy as [Hy|Hy].
+      + unfold gvars in Hy. rewrite map_map in Hy. cbn [copy_ga ga_var] in Hy.
+        destruct (Htg y Hy) as [j [Hj ->]]. right. exists j. split; [lia | reflexivity].
+      + apply in_flat_map in Hy. destruct Hy as [cl [Hcl Hy]]. apply in_map_iff in Hcl. destruct Hcl as [it [<- Hin]].
+        destruct (Hit it Hin) as [_ [_ [_ [_ [_ Hn]]]]]. assert (Hkk : (k <= kf)%nat) by lia.
+        exact (names_okA_mono A A k kf _ (fun y H => H) Hkk Hn y Hy).
+    - intros s t Hag g h Hgh.
+      destruct (copies_exec law Rf Hnd) with (t := t) as [t1 [HE1 [Hcp Hfr]]].
+      { intros x Hx. apply Hng. apply Hcs. apply Hkeys. exact Hx. }
+      assert (Hsx : forall x, In x CS -> t x = s x) by (intros x Hx; apply Hag; apply Hcsr; exact Hx).
+      rewrite E_exec_gas_app, HE1.
+      apply (emit_n_sim mx CS Rf kf s Lv0 items CTrue [] k [] t1 Efin).
+      + intros it Hin. destruct (Hit it Hin) as [Hw [Hr [Hd [Hma [Hs Hn]]]]].
+        assert (HLvd : forall x, In x Lv0 -> ~ In x (gvars (snd (fst it)))).
+        { intros x Hx Hy. destruct (Hgv it x Hin Hy) as [[_ H1]|[j [_ ->]]]; [exact (H1 Hx)|].
+          apply HLv0gen in Hx. rewrite is_gen_old in Hx. discriminate. }
+        split; [|split; [exact Hs | exact HLvd]].
+        split; [apply Hcin; exact Hin|]. split; [exact Hd|]. split; [exact Hma|].
+        intros y x Hy Hx Heq. unfold rn in Heq. destruct (rlookup Rf x) as [o|] eqn:El.
+        * subst o. apply rlookup_In in El. apply (in_map snd) in El. cbn [snd] in El.
+          destruct (Htg y El) as [j [Hj Hyj]]. destruct (Hgv it y Hin Hy) as [[Hg _]|[j' [Hj' Hyj']]].
+          -- rewrite Hyj, is_gen_old in Hg. discriminate.
+          -- rewrite Hyj in Hyj'. apply old_name_inj in Hyj'. lia.
+        * subst y. apply rlookup_none in El. apply El.
+          eapply (final_complete CS brs [] k Rf kf Efin (fst it)); [apply in_map; exact Hin | exact Hx | exact Hy].
+      + intros x [].
+      + intros x _ [].
+      + reflexivity.
+      + intros Emx. apply Hmx. exact Emx.
+      + intros x Hx. rewrite Hfr.
+        * apply Hag. destruct Hx as [Hx|Hx]; [left; exact Hx | right; apply HLsub; exact Hx].
+        * apply Hng. destruct Hx as [Hx|Hx]; [apply is_aux_gen; exact Hx | apply HLv0gen; exact Hx].
+      + intros x Hx. pose proof (Hcs x Hx) as Hgx.
+        assert (Hx1 : t1 x = s x) by (rewrite Hfr by (apply Hng; exact Hgx); apply Hsx; exact Hx).
+        split; [|intros _; exact Hx1]. unfold rn. destruct (rlookup Rf x) as [o|] eqn:El; [|exact Hx1].
+        apply rlookup_In in El. rewrite (Hcp x o El). apply Hsx. exact Hx.
+      + intros t' s' Hag' Hfr'. apply Hgh; [exact Hag'|]. intros y Hy.
+        rewrite Hfr'.
+        * apply Hfr. intros Hin. apply Hy. rewrite gvars_app. apply in_or_app. left.
+          unfold gvars. rewrite map_map. exact Hin.
+        * intros Hin. apply Hy. rewrite gvars_app. apply in_or_app. right. exact Hin.
+  Qed.
+
+  (* ---------- facts about the syntactic checks ---------- *)
+  Lemma assigned_in_vars :
+    (forall st, incl (assigned_stmt st) (stmt_vars st)) /\ (forall b, incl (assigned_block b) (block_vars b))
+    /\ (forall bs, incl (assigned_branches bs) (branches_vars bs)).
+  Proof.
+    apply stmt_block_branches_ind.
+    - intros x r y [<-|[]]. left; reflexivity.
+    - intros l y Hy. cbn [assigned_stmt stmt_vars] in *. apply in_map_iff in Hy. destruct Hy as [[x r] [<- Hin]].
+      apply in_flat_map. exists (x, r). split; [exact Hin | left; reflexivity].
+    - intros bs IHbs els IHels y Hy. cbn [assigned_stmt stmt_vars] in *. apply in_app_or in Hy. apply in_or_app.
+      destruct Hy; [left; apply IHbs | right; apply IHels]; assumption.
+    - intros y [].
+    - intros st IHst b IHb y Hy. cbn [assigned_block block_vars] in *. apply in_app_or in Hy. apply in_or_app.
+      destruct Hy; [left; apply IHst | right; apply IHb]; assumption.
+    - intros y [].
+    - intros c b IHb bs IHbs y Hy. cbn [assigned_branches branches_vars] in *. apply in_app_or in Hy.
+      apply in_or_app. right. apply in_or_app. destruct Hy; [left; apply IHb | right; apply IHbs]; assumption.
+  Qed.
+
+  Definition lv_fact (A Lv Lv' : list var) : Prop :=
+    (forall x, In x Lv' -> In x Lv \/ In x A) /\ (forall x, In x Lv -> ~ In x A -> In x Lv').
+
+  Lemma lv_if_filter Lv A : lv_fact A Lv (filter (fun x => negb (mem x A)) Lv).
+  Proof.
+    split.
+    - intros x Hx. apply filter_In in Hx. left. apply Hx.
+    - intros x Hx Hn. apply filter_In. split; [exact Hx|]. apply negb_true_iff. apply mem_nIn. exact Hn.
+  Qed.
+
+  Lemma lv_facts :
+    (forall st Lv Lv', lv_stmt Lv st = Some Lv' -> lv_fact (assigned_stmt st) Lv Lv')
+    /\ (forall b Lv Lv', lv_block Lv b = Some Lv' -> lv_fact (assigned_block b) Lv Lv')
+    /\ (forall bs : branches, True).
+  Proof.
+    apply stmt_block_branches_ind.
+    - intros x r Lv Lv' H. cbn [lv_stmt] in H. destruct (forallb (readable Lv) (rhs_vars r)); [|discriminate].
+      inversion H; subst Lv'. cbn [assigned_stmt]. split.
+      + intros y Hy. destruct (is_aux x); [destruct Hy as [<-|Hy]; [right; left; reflexivity | left; exact Hy] | left; exact Hy].
+      + intros y Hy _. destruct (is_aux x); [right; exact Hy | exact Hy].
+    - intros l Lv Lv' H. discriminate.
+    - intros bs _ els _ Lv Lv' H. cbn [lv_stmt] in H.
+      match type of H with (if ?c then _ else _) = _ => destruct c end; [|discriminate].
+      inversion H; subst Lv'. apply lv_if_filter.
+    - intros Lv Lv' H. inversion H; subst. split; [intros x Hx; left; exact Hx | intros x Hx _; exact Hx].
+    - intros st IHst b IHb Lv Lv' H. cbn [lv_block] in H. destruct (lv_stmt Lv st) as [Lv1|] eqn:E1; [|discriminate].
+      destruct (IHst _ _ E1) as [A1 B1]. destruct (IHb _ _ H) as [A2 B2]. cbn [assigned_block]. split.
+      + intros x Hx. destruct (A2 x Hx) as [Hx1|Hx1]; [|right; apply in_or_app; right; exact Hx1].
+        destruct (A1 x Hx1) as [Hx2|Hx2]; [left; exact Hx2 | right; apply in_or_app; left; exact Hx2].
+      + intros x Hx Hn. apply B2; [apply B1; [exact Hx|] |]; intros Hin; apply Hn; apply in_or_app; auto.
+    - exact I.
+    - intros; exact I.
+  Qed.
+
+  (* ---------- nested statements ---------- *)
+  Definition res_okN (A : list var) (k : nat) (l : list gassign) (k' : nat) (Lv Lv' : list var) (D : state -> dist state) : Prop :=
+    (k <= k')%nat /\ defaults_ok l /\ aux_mass l /\ names_okA A k' l /\ simL Lv Lv' l D.
+  Definition PN_stmt (st : stmt) : Prop := forall k l k' Lv Lv',
+    fln_stmt k st = Some (l, k') -> wf_vars (stmt_vars st) = true -> mass_stmt st = true ->
+    lv_stmt Lv st = Some Lv' -> (forall x, In x Lv -> is_gen x = false) ->
+    res_okN (assigned_stmt st) k l k' Lv Lv' (exec_stmt law st).
+  Definition PN_block (b : block) : Prop := forall k l k' Lv Lv',
+    fln_block k b = Some (l, k') -> wf_vars (block_vars b) = true -> mass_block b = true ->
+    lv_block Lv b = Some Lv' -> (forall x, In x Lv -> is_gen x = false) ->
+    res_okN (assigned_block b) k l k' Lv Lv' (exec_block law b).
+  Definition PN_branches (bs : branches) : Prop := forall k brs k' Lv0,
+    fln_branches k bs = Some (brs, k') -> wf_vars (branches_vars bs) = true -> mass_branches bs = true ->
+    lvb_branches Lv0 bs = true -> (forall x, In x Lv0 -> is_gen x = false) ->
+    (forall x, In x Lv0 -> ~ In x (assigned_branches bs)) ->
+    (k <= k')%nat /\ exists items : list item,
+      map fst items = brs /\ map (fun it : item => fst (fst it)) items = br_conds bs
+      /\ (forall it, In it items -> wf_vars (cvars (fst (fst it))) = true /\ defaults_ok (snd (fst it))
+            /\ aux_mass (snd (fst it)) /\ simL Lv0 Lv0 (snd (fst it)) (snd it)
+            /\ names_okA (assigned_branches bs) k' (snd (fst it)))
+      /\ forall s, first_match items s = exec_branches law bs s.
+
+  Lemma simL_ext Lv Lv' l D D' : (forall s, D s = D' s) -> simL Lv Lv' l D -> simL Lv Lv' l D'.
+  Proof. intros He H s t Hag g h Hgh. rewrite <- He. apply H; assumption. Qed.
+  Lemma simL_post Lv Lv1 Lv2 l D : (forall x, In x Lv2 -> In x Lv1) -> simL Lv Lv1 l D -> simL Lv Lv2 l D.
+  Proof.
+    intros Hs H s t Hag g h Hgh. apply H; [exact Hag|]. intros t' s' Hag' Hfr. apply Hgh; [|exact Hfr].
+    eapply agreeL_sub; eauto.
+  Qed.
+
+  Lemma fln_correct : (forall st, PN_stmt st) /\ (forall b, PN_block b) /\ (forall bs, PN_branches bs).
+  Proof.
+    destruct assigned_in_vars as [Hav_s [Hav_b Hav_bs]]. destruct lv_facts as [Hlv_s [Hlv_b _]].
+    apply stmt_block_branches_ind.
+    - (* SAssign *)
+      intros x r k l k' Lv Lv' H Hwf Hmass Hlv HLg. cbn [fln_stmt] in H. inversion H; subst l k'. clear H.
+      cbn [stmt_vars] in Hwf. cbn [lv_stmt] in Hlv.
+      destruct (forallb (readable Lv) (rhs_vars r)) eqn:Er; [|discriminate]. inversion Hlv; subst Lv'. clear Hlv.
+      rewrite forallb_forall in Er.
+      split; [lia|]. split; [|split; [|split]].
+      + intros g [<-|[]]. reflexivity.
+      + intros g [<-|[]] Ha. cbn [ga_var ga_rhs] in *. cbn [mass_stmt] in Hmass. rewrite Ha in Hmass. cbn in Hmass.
+        intros t c. apply (mass_sample law law_mass r Hmass).
+      + intros y [<-|[]]. left. left. reflexivity.
+      + intros s t Hag g h Hgh.
+        rewrite E_exec_gas_cons, E_exec_ga, exec_stmt_assign. cbn [ga_cond ga_rhs ga_var holds]. rewrite E_bind.
+        rewrite (sample_ext law r s t).
+        2:{ intros y Hy. apply Hag. specialize (Er y Hy). unfold readable in Er. apply orb_true_iff in Er.
+            destruct Er as [Er|Er]; [left; apply negb_true_iff; exact Er | right; apply mem_In; exact Er]. }
+        apply E_ext. intros v. cbn [exec_gas]. rewrite !E_ret. apply Hgh.
+        * intros y Hy. unfold upd. destruct (var_eqb y x) eqn:Eyx; [reflexivity|]. apply Hag.
+          destruct Hy as [Hy|Hy]; [left; exact Hy|]. right. destruct (is_aux x); [|exact Hy].
+          destruct Hy as [Hy|Hy]; [|exact Hy]. subst y. rewrite var_eqb_refl in Eyx. discriminate.
+        * intros y Hy. apply upd_other. intros ->. apply Hy. left; reflexivity.
+    - (* SSimult *)
+      intros l k l' k' Lv Lv' H. cbn [fln_stmt] in H. discriminate.
+    - (* SIf *)
+      intros bs IHbs els IHels k l k' Lv Lv' H Hwf Hmass Hlv HLg. cbn [fln_stmt] in H.
+      destruct (fln_branches k bs) as [[brs k1]|] eqn:E1; [|discriminate].
+      destruct (fln_block k1 els) as [[le k2]|] eqn:E2; [|discriminate]. inversion H as [Hfl]. clear H.
+      cbn [stmt_vars] in Hwf. pose proof Hwf as Hwfall. rewrite wf_vars_app in Hwf. apply andb_true_iff in Hwf. destruct Hwf as [Hwf1 Hwf2].
+      cbn [mass_stmt] in Hmass. apply andb_true_iff in Hmass. destruct Hmass as [Hm1 Hm2].
+      cbn [lv_stmt] in Hlv.
+      set (A := assigned_branches bs ++ assigned_block els) in *.
+      set (Lv0 := filter (fun x => negb (mem x A)) Lv) in *.
+      destruct (forallb (readable Lv) (flat_map cvars (br_conds bs))) eqn:Erd; [|discriminate].
+      destruct (lvb_branches Lv0 bs) eqn:Elb; [|discriminate].
+      destruct (lv_block Lv0 els) as [Lve|] eqn:Ele; [|discriminate]. cbn in Hlv. inversion Hlv; subst Lv'. clear Hlv.
+      destruct (lv_if_filter Lv A) as [Hf1 Hf2]. fold Lv0 in Hf1, Hf2.
+      assert (HL0sub : forall x, In x Lv0 -> In x Lv) by (intros x Hx; apply filter_In in Hx; apply Hx).
+      assert (HL0A : forall x, In x Lv0 -> ~ In x A).
+      { intros x Hx. apply filter_In in Hx. destruct Hx as [_ Hx]. apply negb_true_iff in Hx. apply mem_nIn. exact Hx. }
+      assert (HL0g : forall x, In x Lv0 -> is_gen x = false) by (intros x Hx; apply HLg, HL0sub, Hx).
+      destruct (IHbs k brs k1 Lv0 E1 Hwf1 Hm1 Elb HL0g) as [Hk1 [items [Hmap [Hconds [Hitems Hfm]]]]].
+      { intros x Hx Hin. apply (HL0A x Hx). apply in_or_app. left; exact Hin. }
+      destruct (IHels k1 le k2 Lv0 Lve E2 Hwf2 Hm2 Ele HL0g) as [Hk2 [Hde [Hme [Hne Hse]]]].
+      assert (Hse0 : simL Lv0 Lv0 le (exec_block law els)).
+      { eapply simL_post; [|exact Hse]. intros x Hx. destruct (Hlv_b _ _ _ Ele) as [_ Hkeep]. apply Hkeep; [exact Hx|].
+        intros Hin. apply (HL0A x Hx). apply in_or_app. right; exact Hin. }
+      set (items' := match els with BNil => items | _ => items ++ [((CTrue, le), exec_block law els)] end).
+      assert (Hmap' : map fst items' = match els with BNil => brs | _ => brs ++ [(CTrue, le)] end).
+      { unfold items'. destruct els; [exact Hmap | rewrite map_app; apply f_equal2; [exact Hmap | reflexivity]]. }
+      rewrite <- Hmap' in Hfl.
+      assert (HA : forall y, In y A -> is_gen y = false /\ ~ In y Lv0).
+      { intros y Hy. split.
+        - eapply wf_vars_In; [exact Hwfall|]. unfold A in Hy. apply in_app_or in Hy. apply in_or_app.
+          destruct Hy; [left; apply Hav_bs | right; apply Hav_b]; assumption.
+        - intros Hin. exact (HL0A y Hin Hy). }
+      rewrite forallb_forall in Erd.
+      destruct (flatten_if_n_sim (mutex_shape bs els) items' k2 l k' Lv Lv0 A Hfl HL0sub HLg HA) as [Hk' [Hd [Hma [Hn Hs]]]].
+      + assert (Hold : forall it, In it items -> wf_vars (cvars (fst (fst it))) = true
+            /\ (forall x, In x (cvars (fst (fst it))) -> is_aux x = false \/ In x Lv)
+            /\ defaults_ok (snd (fst it)) /\ aux_mass (snd (fst it))
+            /\ simL Lv0 Lv0 (snd (fst it)) (snd it) /\ names_okA A k2 (snd (fst it))).
+        { intros it Hin. destruct (Hitems it Hin) as [H1 [H2 [H3 [H4 H5]]]]. split; [exact H1|]. split.
+          - intros x Hx. assert (Hr : readable Lv x = true).
+            { apply Erd. apply in_flat_map. exists (fst (fst it)). split; [|exact Hx].
+              rewrite <- Hconds. apply in_map_iff. exists it. split; [reflexivity | exact Hin]. }
+            unfold readable in Hr. apply orb_true_iff in Hr.
+            destruct Hr as [Hr|Hr]; [left; apply negb_true_iff; exact Hr | right; apply mem_In; exact Hr].
+          - split; [exact H2|]. split; [exact H3|]. split; [exact H4|].
+            eapply names_okA_mono; [|exact Hk2|exact H5]. intros y Hy. apply in_or_app. left; exact Hy. }
+        unfold items'. destruct els; [exact Hold|]; intros it Hin; apply in_app_or in Hin;
+          (destruct Hin as [Hin|[<-|[]]]; [apply Hold; exact Hin|]). cbn [fst snd].
+        split; [reflexivity|]. split; [intros x []|]. split; [exact Hde|]. split; [exact Hme|]. split; [exact Hse0|].
+        eapply names_okA_mono; [|apply Nat.le_refl|exact Hne]. intros y Hy. apply in_or_app. right; exact Hy.
+      + intros Emx s. unfold mutex_shape in Emx. unfold items'. destruct els; try discriminate.
+        rewrite Hconds. apply mutex_conds_excl. exact Emx.
+      + split; [lia|]. split; [exact Hd|]. split; [exact Hma|]. split; [exact Hn|].
+        eapply simL_ext; [|exact Hs]. intros s. rewrite exec_stmt_if. unfold sem_items, items'.
+        destruct els as [|st0 b0].
+        * rewrite Hfm, exec_block_nil. reflexivity.
+        * rewrite first_match_app, Hfm. cbn [fst snd holds]. destruct (exec_branches law bs s); reflexivity.
+    - (* BNil *)
+      intros k l k' Lv Lv' H _ _ Hlv _. cbn [fln_block] in H. inversion H; subst l k'. inversion Hlv; subst Lv'.
+      split; [lia|]. split; [intros g []|]. split; [intros g []|]. split; [intros y []|].
+      intros s t Hag g h Hgh. rewrite exec_block_nil. cbn [exec_gas]. rewrite !E_ret. apply Hgh; [exact Hag | intros y _; reflexivity].
+    - (* BCons *)
+      intros st IHst b IHb k l k' Lv Lv' H Hwf Hmass Hlv HLg. cbn [fln_block] in H.
+      destruct (fln_stmt k st) as [[l1 k1]|] eqn:E1; [|discriminate].
+      destruct (fln_block k1 b) as [[l2 k2]|] eqn:E2; [|discriminate]. inversion H; subst l k'. clear H.
+      cbn [block_vars] in Hwf. rewrite wf_vars_app in Hwf. apply andb_true_iff in Hwf. destruct Hwf as [Hwf1 Hwf2].
+      cbn [mass_block] in Hmass. apply andb_true_iff in Hmass. destruct Hmass as [Hm1 Hm2].
+      cbn [lv_block] in Hlv. destruct (lv_stmt Lv st) as [Lv1|] eqn:El1; [|discriminate].
+      assert (HLg1 : forall x, In x Lv1 -> is_gen x = false).
+      { intros x Hx. destruct (Hlv_s _ _ _ El1) as [Hsrc _]. destruct (Hsrc x Hx) as [H1|H1]; [apply HLg; exact H1|].
+        eapply wf_vars_In; [exact Hwf1 | apply Hav_s; exact H1]. }
+      destruct (IHst k l1 k1 Lv Lv1 E1 Hwf1 Hm1 El1 HLg) as [Hk1 [Hd1 [Hma1 [Hn1 Hs1]]]].
+      destruct (IHb k1 l2 k2 Lv1 Lv' E2 Hwf2 Hm2 Hlv HLg1) as [Hk2 [Hd2 [Hma2 [Hn2 Hs2]]]].
+      split; [lia|]. split; [|split; [|split]].
+      + intros g Hg. apply in_app_or in Hg. destruct Hg; [apply Hd1 | apply Hd2]; assumption.
+      + intros g Hg. apply in_app_or in Hg. destruct Hg; [apply Hma1 | apply Hma2]; assumption.
+      + intros y Hy. rewrite gvars_app in Hy. cbn [assigned_block]. apply in_app_or in Hy. destruct Hy as [Hy|Hy].
+        * exact (names_okA_mono _ _ k1 k2 _ (fun y H => in_or_app _ _ y (or_introl H)) Hk2 Hn1 y Hy).
+        * exact (names_okA_mono _ _ k2 k2 _ (fun y H => in_or_app _ _ y (or_intror H)) (Nat.le_refl _) Hn2 y Hy).
+      + intros s t Hag g h Hgh. rewrite E_exec_gas_app, exec_block_cons, E_bind.
+        apply Hs1; [exact Hag|]. intros t1 s1 Hag1 Hfr1.
+        apply Hs2; [exact Hag1|]. intros t2 s2 Hag2 Hfr2. apply Hgh; [exact Hag2|].
+        intros y Hy. rewrite gvars_app in Hy. rewrite Hfr2, Hfr1; [reflexivity| |]; intros Hin; apply Hy; apply in_or_app; auto.
+    - (* BrNil *)
+      intros k brs k' Lv0 H _ _ _ _ _. cbn [fln_branches] in H. inversion H; subst brs k'.
+      split; [lia|]. exists []. split; [reflexivity|]. split; [reflexivity|]. split; [intros it0 [] | intros s; reflexivity].
+    - (* BrCons *)
+      intros c b IHb bs IHbs k brs k' Lv0 H Hwf Hmass Hlv HLg HLA. cbn [fln_branches] in H.
+      destruct (fln_block k b) as [[l k1]|] eqn:E1; [|discriminate].
+      destruct (fln_branches k1 bs) as [[brs0 k2]|] eqn:E2; [|discriminate]. inversion H; subst brs k'. clear H.
+      cbn [branches_vars] in Hwf. rewrite !wf_vars_app in Hwf. apply andb_true_iff in Hwf. destruct Hwf as [Hwc Hwf].
+      apply andb_true_iff in Hwf. destruct Hwf as [Hwb Hwbs].
+      cbn [mass_branches] in Hmass. apply andb_true_iff in Hmass. destruct Hmass as [Hm1 Hm2].
+      cbn [lvb_branches] in Hlv. apply andb_true_iff in Hlv. destruct Hlv as [Hl1 Hl2].
+      destruct (lv_block Lv0 b) as [Lvb|] eqn:Elb; [|discriminate].
+      cbn [assigned_branches] in HLA.
+      destruct (IHb k l k1 Lv0 Lvb E1 Hwb Hm1 Elb HLg) as [Hk1 [Hd [Hma [Hn Hs]]]].
+      destruct (IHbs k1 brs0 k2 Lv0 E2 Hwbs Hm2 Hl2 HLg) as [Hk2 [items [Hmap [Hconds [Hitems Hfm]]]]].
+      { intros x Hx Hin. apply (HLA x Hx). apply in_or_app. right; exact Hin. }
+      split; [lia|]. exists (((c, l), exec_block law b) :: items).
+      split; [cbn [map fst]; rewrite Hmap; reflexivity|].
+      split; [cbn [map fst br_conds]; rewrite Hconds; reflexivity|]. split.
+      + intros it [<-|Hin].
+        * cbn [fst snd]. split; [exact Hwc|]. split; [exact Hd|]. split; [exact Hma|]. split.
+          -- eapply simL_post; [|exact Hs]. intros x Hx. destruct (Hlv_b _ _ _ Elb) as [_ Hkeep]. apply Hkeep; [exact Hx|].
+             intros Hin. apply (HLA x Hx). apply in_or_app. left; exact Hin.
+          -- cbn [assigned_branches]. eapply names_okA_mono; [|exact Hk2|exact Hn]. intros y Hy. apply in_or_app. left; exact Hy.
+        * destruct (Hitems it Hin) as [H1 [H2 [H3 [H4 H5]]]]. split; [exact H1|]. split; [exact H2|]. split; [exact H3|].
+          split; [exact H4|]. cbn [assigned_branches]. eapply names_okA_mono; [|apply Nat.le_refl|exact H5].
+          intros y Hy. apply in_or_app. right; exact Hy.
+      + intros s. rewrite exec_branches_cons. cbn [first_match fst snd]. rewrite Hfm. reflexivity.
+  Qed.
+
+  (* ---------- the theorems ---------- *)
+  Definition agreeA (s t : state) : Prop := forall x, is_aux x = false -> t x = s x.
+  Definition blindA (f : state -> Qc) : Prop := forall s t, agreeA s t -> f t = f s.
+
+  Lemma agreeL_nil s t : agreeL [] s t <-> agreeA s t.
+  Proof. split; [intros H x Hx; apply H; left; exact Hx | intros H x [Hx|[]]; apply H; exact Hx]. Qed.
+
+  Lemma aux_ok_parts b : aux_ok b = true ->
+    wf_vars (block_vars b) = true /\ mass_block b = true /\ exists Lv', lv_block [] b = Some Lv'.
+  Proof.
+    unfold aux_ok, wf_block, live_ok. intros H. apply andb_true_iff in H. destruct H as [H H3].
+    apply andb_true_iff in H. destruct H as [H1 H2]. split; [exact H1|]. split; [exact H2|].
+    destruct (lv_block [] b) as [Lv'|]; [exists Lv'; reflexivity | discriminate].
+  Qed.
+
+  Lemma if_flatten_simA k b l k' : if_flatten k b = Some (l, k') -> aux_ok b = true ->
+    forall s t, agreeA s t -> forall g h, (forall s' t', agreeA s' t' -> g t' = h s') ->
+      E (exec_gas law l t) g = E (exec_block law b s) h.
+  Proof.
+    intros H Hok s t Hag g h Hgh. destruct (aux_ok_parts b Hok) as [Hwf [Hm [Lv' Hlv]]].
+    destruct fln_correct as [_ [Hb _]].
+    destruct (Hb b k l k' [] Lv' H Hwf Hm Hlv (fun x (F : In x []) => match F with end)) as [_ [_ [_ [_ Hs]]]].
+    apply Hs; [apply agreeL_nil; exact Hag|]. intros t' s' Hag' _. apply Hgh.
+    intros x Hx. apply Hag'. left; exact Hx.
+  Qed.
+
+  Theorem if_flatten_block_preserves k b l k' :
+    if_flatten k b = Some (l, k') -> aux_ok b = true ->
+    forall s t, agreeA s t -> forall f, blindA f ->
+      E (exec_gas law l t) f = E (exec_block law b s) f.
+  Proof. intros H Hok s t Hag f Hf. eapply if_flatten_simA; eauto. Qed.
+
+  Theorem if_flatten_preserves k p fp k' :
+    if_flatten_prog k p = Some (fp, k') -> aux_ok_prog p = true ->
+    forall n s0 t0, agreeA s0 t0 -> forall f, blindA f ->
+      E (frun law fp n t0) f = E (run law p n s0) f.
+  Proof.
+    unfold if_flatten_prog, aux_ok_prog. intros H Hok.
+    destruct (p_guard p) eqn:Eg; try discriminate.
+    destruct (if_flatten k (p_init p)) as [[li k1]|] eqn:Ei; [|discriminate].
+    destruct (if_flatten k1 (p_body p)) as [[lb k2]|] eqn:Eb; [|discriminate]. inversion H; subst fp k'. clear H.
+    apply andb_true_iff in Hok. destruct Hok as [Hoi Hob].
+    assert (Hrel : forall n s0 t0, agreeA s0 t0 -> forall g h, (forall s t, agreeA s t -> g t = h s) ->
+              E (frun law {| fp_init := li; fp_body := lb |} n t0) g = E (run law p n s0) h).
+    { induction n as [|n IH]; intros s0 t0 Hag g h Hgh; cbn [frun run fp_init].
+      - eapply if_flatten_simA; eauto.
+      - rewrite !E_bind. apply IH; [exact Hag|]. intros s t Hst.
+        unfold fstep, iter. cbn [fp_body]. rewrite Eg. cbn [holds]. eapply if_flatten_simA; eauto. }
+    intros n s0 t0 Hag f Hf. apply Hrel; [exact Hag | exact Hf].
+  Qed.
 End AuxProof.
